@@ -464,7 +464,10 @@ def _why(path) -> Tuple[str, str]:
 def run_universe(chk, u: str, timeout: int = 1500, only_sig: Dict[str, Any] = None) -> Dict[str, int]:
   """Runs the three steps for universe `u`; reports violations through chk; returns counters."""
   from . import tlc   # pylint: disable=import-outside-toplevel
-  data, r = tlc.export_json('ValueSpecExport', f'C04_export_{u}.cfg', name=f'c04-export-{u}', timeout=timeout)
+  try:
+    data, r = tlc.export_json('ValueSpecExport', f'C04_export_{u}.cfg', name=f'c04-export-{u}', timeout=timeout)
+  except FileNotFoundError as e:
+    raise tlc.TLCError(f'ValueSpecExport wrote no universe for {u}: a law fails on the reference semantics') from e
   chk.add_tlc(r, count_states=False)
   if not r.ok:
     raise tlc.TLCError(f'reference laws fail on the reference semantics (universe {u}):\n{r.out[-2000:]}')
